@@ -577,6 +577,57 @@ impl<T> Block for NoCopyFileSink<T>""")]),
     dict(name="m1r4+size-check-helper-always-ok", prop="C01", expect="C01.R2:",
          patch="/verif/neutral_seeded/m1-r4/patch.diff", edits=[],
          post_edits=[E("src/circular_buffer.rs", "    if member_size == 0 || size % member_size != 0 {", "    if member_size == 0 {")]),
+    dict(name="sw-c01-reader-consume-swallowed", prop="C01", expect="C01.R8:circular_buffer::BufferReader::consume:forwards",
+         edits=[E("src/circular_buffer.rs", "        self.parent.consume(n);", "        let _ = n;")]),
+    dict(name="sw-c01-writer-is-empty-inverted", prop="C01", expect="C01.R8:circular_buffer::BufferWriter::is_empty:bounds",
+         edits=[E("src/circular_buffer.rs", """    pub fn is_empty(&self) -> bool {
+        self.end == self.start
+    }
+}
+
+/// Type aware buffer.""", """    pub fn is_empty(&self) -> bool {
+        self.end != self.start
+    }
+}
+
+/// Type aware buffer.""")]),
+    dict(name="sw-c09-nullsink-no-consume", prop="C09", expect="C09.R9:<null_sink::NullSink as block::Block>::work:wait(src)",
+         edits=[E("src/null_sink.rs", "        i.consume(n);", "        let _ = (i, n);")]),
+    dict(name="sw-c08-fftstream-no-consume", prop="C08", expect="C08.R11:<fft_stream::FftStream as block::Block>::work:produce",
+         edits=[E("src/fft_stream.rs", "        input.consume(len);\n", "")]),
+    dict(name="sw-c08-skip-fastpath-no-consume", prop="C08", expect="C08.R11:<skip::Skip as block::Block>::work:produce",
+         edits=[E("src/skip.rs", "            i.consume(len);\n", "")]),
+    dict(name="sw-c08-cma-no-consume", prop="C08", expect="C08.R12:<cma::CmaEqualizer as block::Block>::work:produce#0:src",
+         edits=[E("src/cma.rs", "        input.consume(len);\n", "")]),
+    dict(name="sw-c08-auencode-no-consume", prop="C08", expect="C08.R12:<au::AuEncode as block::Block>::work:produce#1:src",
+         edits=[E("src/au.rs", "        i.consume(n);\n        o.produce(n * ss, &[]);", "        o.produce(n * ss, &[]);")]),
+    dict(name="sw-c09-macro-input-wait-inverted", prop="C09", expect="C09.R7:<add::Add as block::Block>::work:wait(a)",
+         edits=[E("rustradio_macros/src/lib.rs", """                      if #in_names.len() == 0 {""", """                      if #in_names.len() != 0 {""")]),
+    dict(name="sw-c09-macro-output-wait-inverted", prop="C09", expect="C09.R7:<add::Add as block::Block>::work:wait(dst)",
+         edits=[E("rustradio_macros/src/lib.rs", """                      if #out_names.len() == 0 {""", """                      if #out_names.len() != 0 {""")]),
+    dict(name="sw-c16-filesource-zero-length-read", prop="C16", expect="C16.R11:<file_source::FileSource as block::Block>::work:read#0",
+         edits=[E("src/file_source.rs", "        if have < want {", "        if have <= want {")]),
+    dict(name="sw-c14-filesource-zero-length-read", prop="C14", expect="C14.R9:<file_source::FileSource as block::Block>::work:read#0",
+         edits=[E("src/file_source.rs", "        if have < want {", "        if have <= want {")]),
+    dict(name="sw-c14-filesource-fastpath-not-whole", prop="C14", expect="C14.R4:<file_source::FileSource as block::Block>::work:fastpath:whole",
+         edits=[E("src/file_source.rs", "(n % sample_size) == 0 {", "(n / sample_size) == 0 {")]),
+    dict(name="sw-c14-filesource-read-bytes-dropped", prop="C14", expect="C14.R10:<file_source::FileSource as block::Block>::work:read#0",
+         edits=[E("src/file_source.rs", "            self.buf.extend(&buffer[..n]);\n", "")]),
+    dict(name="sw-c16-vectorsource-again-before-end", prop="C16", expect="C16.R6:<vector_source::VectorSource as block::Block>::work:again()",
+         edits=[E("src/vector_source.rs", "        if self.pos == self.data.len() {", "        if self.pos != self.data.len() {")]),
+    dict(name="sw-c09-skip-count-max", prop="C09", expect="C09.R10:<skip::Skip as block::Block>::work:",
+         edits=[E("src/skip.rs", "let len = std::cmp::min(i.len(), o.len());", "let len = std::cmp::max(i.len(), o.len());")]),
+    dict(name="sw-c09-delay-count-input-only", prop="C09", expect="C09.R10:<delay::Delay as block::Block>::work:produce",
+         edits=[E("src/delay.rs", "        let n = std::cmp::min(input.len(), o.len());\n        o.fill_from_slice(&input.slice()[..n]);",
+                  "        let n = input.len();\n        o.fill_from_slice(&input.slice()[..n]);")]),
+    dict(name="sw-c14-au-header-word-dropped", prop="C14", expect="C14.R11:au:header-length",
+         edits=[E("src/au.rs", "        v.extend(0xffffffffu32.to_be_bytes());\n", "")]),
+    dict(name="sw-c14-au-magic-check-inverted", prop="C14", expect="C14.R11:au:reject#1",
+         edits=[E("src/au.rs", "                if magic != 0x2e736e64u32 {", "                if magic == 0x2e736e64u32 {")]),
+    dict(name="sw-c14-au-magic-differs", prop="C14", expect="C14.R11:au:magic",
+         edits=[E("src/au.rs", "        v.extend(0x2e736e64u32.to_be_bytes());", "        v.extend(0x2e736e65u32.to_be_bytes());")]),
+    dict(name="sw-c09-auencode-room-times-size", prop="C09", expect="C09.R10:<au::AuEncode as block::Block>::work:produce",
+         edits=[E("src/au.rs", "let n = std::cmp::min(i.len(), o.len() / ss);", "let n = std::cmp::min(i.len(), o.len() * ss);")]),
     dict(name="sw-c16-tcpsource-closed-again", prop="C16", expect="C16.R8:<tcp_source::TcpSource as block::Block>::work:read()==0",
          edits=[E("src/tcp_source.rs", "            return Ok(BlockRet::EOF);", "            return Ok(BlockRet::Again);")]),
     dict(name="sw-c08-fill-deleted", prop="C08", expect="C08.R4:<file_source::FileSource as block::Block>::work:produce",
